@@ -13,7 +13,9 @@ use crate::{
             },
         },
         format::{format_date_part, unquote_part},
-        parse::{parse_date_part, parse_format_string, ParseUnit, ParsedDate},
+        parse::{
+            parse_date_part, parse_format_string, remove_literal_part, ParseUnit, ParsedDate,
+        },
     },
     DateTime, DateUtilities,
 };
@@ -97,15 +99,9 @@ impl Date {
         let mut string = string.to_string();
 
         for part in parts {
-            // Escaped apostrophes
-            if part.starts_with('\u{0000}') {
-                string.replace_range(0..part.len(), "");
-                continue;
-            }
-
-            // Escaped parts
-            if part.starts_with('\'') {
-                string.replace_range(0..part.len() - if part.ends_with('\'') { 2 } else { 1 }, "");
+            // Escaped apostrophes and escaped parts
+            if part.starts_with('\u{0000}') || part.starts_with('\'') {
+                remove_literal_part(&part, &mut string)?;
                 continue;
             }
 
